@@ -17,8 +17,8 @@ import (
 
 type bfEnv struct {
 	info   *types.Info
-	atom   func(e ast.Expr) (tri, bool)          // value of an atomic predicate under the current assignment
-	lookup func(m ast.Expr) (tri, bool)          // value of `_, ok := m[k]`
+	atom   func(e ast.Expr) (tri, bool)              // value of an atomic predicate under the current assignment
+	lookup func(m ast.Expr) (tri, bool)              // value of `_, ok := m[k]`
 	store  func(m ast.Expr) (effect string, ok bool) // effect name of `m[k] = v`; ok=false: not a tracked store
 	locals map[types.Object]tri
 }
